@@ -8,6 +8,11 @@
 //	       CheckSource returns the parser's diagnostics without running the checker) | off (the driver did
 //	       not give this input the checker stage)
 //	regex  regex.Transpile(src, flags) for 10 flag bytes, the input taken as a regex literal body
+//	render the REPORTING step of `elk run` / the REPL: the diagnostics of parser.Parse (and of the
+//	       checker stage when it ran) are printed with DiagnosticList.HumanStringWithSourceMap(true,
+//	       lexer.Colorizer{}, {name: src}) - every excerpt line is re-lexed by lexer.Colorize WITHOUT its
+//	       newline - and lexer.Colorize runs on the whole input and on each of its lines (what the
+//	       REPL's highlighter does with a fragment)            ok | diag (something was printed) | off
 //
 // A stage that panics is reported as panic:<file>:<function>:<message> where file/function name the
 // top-most frame of the panicking goroutine that lies in the elk module (no line numbers: stable
@@ -67,6 +72,7 @@ import (
 	"github.com/elk-language/elk/bitfield"
 	"github.com/elk-language/elk/lexer"
 	"github.com/elk-language/elk/parser"
+	"github.com/elk-language/elk/position/diagnostic"
 	"github.com/elk-language/elk/regex"
 	"github.com/elk-language/elk/token"
 	"github.com/elk-language/elk/types/checker"
@@ -92,6 +98,9 @@ func siteOf(fn, file string) string {
 // isAccessor: frames of the leaf data packages (token, position) - the interesting site is the caller.
 func isAccessor(fn string) bool {
 	fn = strings.TrimPrefix(fn, modPrefix)
+	if strings.Contains(fn, "HumanString") { // the diagnostic printer lives in package position
+		return false
+	}
 	return strings.HasPrefix(fn, "token.") || strings.HasPrefix(fn, "position.")
 }
 
@@ -160,13 +169,40 @@ func stageParse(src string) string {
 	return "ok"
 }
 
+// diagnostics of the last checker stage, printed by the render stage
+var lastCheckDiags diagnostic.DiagnosticList
+
 //go:noinline
 func stageCheck(src string) string {
 	_, dl := checker.CheckSource("<c03>", src, nil, bitfield.BitField16{}, nil)
+	lastCheckDiags = dl
 	if dl.IsFailure() {
 		return "diag"
 	}
 	return "ok"
+}
+
+//go:noinline
+func stageRender(src string, checkDiags diagnostic.DiagnosticList) string {
+	r := "ok"
+	sm := map[string]string{"<c03>": src}
+	_, dl := parser.Parse("<c03>", src)
+	for _, l := range []diagnostic.DiagnosticList{dl, checkDiags} {
+		if len(l) == 0 {
+			continue
+		}
+		// an error return (source of another file unreadable) is a report, not a crash
+		if str, err := l.HumanStringWithSourceMap(true, lexer.Colorizer{}, sm); err == nil && str != "" {
+			r = "diag"
+		}
+	}
+	lexer.Colorize(src)
+	if strings.IndexByte(src, '\n') >= 0 {
+		for _, line := range strings.Split(src, "\n") {
+			lexer.Colorize(line)
+		}
+	}
+	return r
 }
 
 //go:noinline
@@ -185,6 +221,7 @@ func runStages(src string, stages string) string {
 	lex := guard(func() string { return stageLex(src) })
 	parse := guard(func() string { return stageParse(src) })
 	check := "off"
+	lastCheckDiags = nil
 	if strings.Contains(stages, "c") {
 		if parse != "ok" {
 			check = "skip"
@@ -196,13 +233,19 @@ func runStages(src string, stages string) string {
 	if strings.Contains(stages, "r") {
 		rx = guard(func() string { return stageRegex(src) })
 	}
-	return "lex=" + lex + ";parse=" + parse + ";check=" + check + ";regex=" + rx
+	rd := "off"
+	if strings.Contains(stages, "d") {
+		cd := lastCheckDiags
+		rd = guard(func() string { return stageRender(src, cd) })
+	}
+	lastCheckDiags = nil
+	return "lex=" + lex + ";parse=" + parse + ";check=" + check + ";regex=" + rx + ";render=" + rd
 }
 
 // stageOf names the stage a goroutine block of a stack dump was in ("check" for a goroutine
 // without a stage frame: only the checker starts goroutines).
 func stageOf(block string) string {
-	for _, st := range [][2]string{{"main.stageLex", "lex"}, {"main.stageParse", "parse"}, {"main.stageCheck", "check"}, {"main.stageRegex", "regex"}} {
+	for _, st := range [][2]string{{"main.stageLex", "lex"}, {"main.stageParse", "parse"}, {"main.stageCheck", "check"}, {"main.stageRegex", "regex"}, {"main.stageRender", "render"}} {
 		if strings.Contains(block, st[0]+"(") {
 			return st[1]
 		}
@@ -229,7 +272,7 @@ func workerMain() {
 			p := strings.Split(line, "\t")
 			if len(p) >= 2 {
 				b, herr := hex.DecodeString(p[1])
-				stages := "lpcr"
+				stages := "lpcrd"
 				if len(p) >= 3 {
 					stages = p[2]
 				}
@@ -507,7 +550,9 @@ type outcome struct {
 // runOne sends one job to w and waits. On timeout/death the worker is gone (w must be dropped).
 func runOne(w *wproc, j job, cpuBudget float64, wallBudget time.Duration) outcome {
 	pid := w.cmd.Process.Pid
-	cpu0 := cpuTicks(pid)
+	// the CPU clock of the input starts at the first watchdog tick (150 ms after it was sent): reading
+	// /proc/<pid>/stat for every one of tens of thousands of 30 us inputs costs more than the inputs
+	cpu0 := int64(-2)
 	_, err := fmt.Fprintf(w.stdin, "%s\t%s\t%s\n", j.id, hex.EncodeToString([]byte(j.src)), j.stages)
 	deadline := time.After(wallBudget)
 	tick := time.NewTicker(150 * time.Millisecond)
@@ -536,6 +581,10 @@ func runOne(w *wproc, j job, cpuBudget float64, wallBudget time.Duration) outcom
 				return outcome{"done", l[len("E\t"+j.id+"\t"):]}
 			}
 		case <-tick.C:
+			if cpu0 == -2 {
+				cpu0 = cpuTicks(pid)
+				continue
+			}
 			if c := cpuTicks(pid); c >= 0 && cpu0 >= 0 && float64(c-cpu0)/100.0 > cpuBudget {
 				return outcome{"timeout", hangSite(w.quitAndCollect())}
 			}
@@ -730,6 +779,39 @@ func harvest(repo string) []string {
 	return out
 }
 
+// harvestInputs: every input:/source: string literal of the Go test files matching the patterns
+// (relative to the repo root), in file order, without duplicates.
+func harvestInputs(repo string, patterns ...string) []string {
+	var out []string
+	seen := map[string]bool{}
+	add := func(s string) {
+		if len(s) == 0 || len(s) > 20000 || seen[s] {
+			return
+		}
+		seen[s] = true
+		out = append(out, s)
+	}
+	for _, pat := range patterns {
+		m, _ := filepath.Glob(filepath.Join(repo, pat))
+		sort.Strings(m)
+		for _, f := range m {
+			b, err := os.ReadFile(f)
+			if err != nil {
+				continue
+			}
+			for _, m := range rawSnippet.FindAllSubmatch(b, -1) {
+				add(string(m[1]))
+			}
+			for _, m := range quotedSnippet.FindAllSubmatch(b, -1) {
+				if s, err := strconv.Unquote(string(m[1])); err == nil {
+					add(s)
+				}
+			}
+		}
+	}
+	return out
+}
+
 // ------------------------------------------------------------------ generators
 
 type gen struct {
@@ -909,6 +991,143 @@ func (g *gen) pattern(d int) string {
 	}
 }
 
+// ---- literal grammar: every literal kind the lexer has a scanner (or a lexer mode) for, with
+// valid, invalid and missing parts. Used by the p (prefix) generator and by atom().
+
+var intDigits = map[string]string{"": "0123456789", "0x": "0123456789abcdefABCDEF", "0X": "09afAF", "0b": "01", "0B": "01", "0o": "01234567", "0O": "07", "0q": "0123", "0d": "0123456789ab", "0D": "09abAB"}
+var intPrefixes = []string{"", "", "", "0x", "0X", "0b", "0B", "0o", "0O", "0q", "0d", "0D"}
+var numSuffixes = []string{"", "", "", "i8", "i16", "i32", "i64", "u", "u8", "u16", "u32", "u64", "bf", "f32", "f64", "i9", "u7", "f", "i", "n", "_", "__1"}
+var badDigits = []string{"g", "z", "_", "__", "G", "9", "2", "é", ".", "-", "x", "\\", "$", "\""}
+
+func (g *gen) digits(set string, min, max int, dirty bool) string {
+	var b strings.Builder
+	for i := g.r.Range(min, max); i > 0; i-- {
+		if dirty && g.r.Chance(1, 4) {
+			b.WriteString(g.pick(badDigits))
+			continue
+		}
+		b.WriteByte(set[g.r.Below(len(set))])
+		if g.r.Chance(1, 8) {
+			b.WriteByte('_')
+		}
+	}
+	return b.String()
+}
+
+func (g *gen) numLit() string {
+	pre := g.pick(intPrefixes)
+	set := intDigits[pre]
+	dirty := g.r.Chance(1, 3)
+	switch g.r.Below(6) {
+	case 0, 1, 2:
+		return pre + g.digits(set, 0, 5, dirty) + g.pick(numSuffixes)
+	case 3:
+		return g.digits("0123456789", 0, 3, dirty) + "." + g.digits("0123456789", 0, 3, dirty) + g.pick(numSuffixes)
+	case 4:
+		return g.digits("0123456789", 0, 3, false) + g.pick([]string{"e", "E", "e+", "e-", ".5e", "e_"}) + g.digits("0123456789", 0, 3, dirty) + g.pick(numSuffixes)
+	default:
+		return g.pick([]string{"-", "+", ""}) + pre + g.digits(set, 1, 20, false) + g.pick(numSuffixes)
+	}
+}
+
+var collPrefixes = []string{"%", "%", "^", "\\", "\\"}
+var wordElems = []string{"foo", "bar", "a", "1", "_", "é", "\\n", "]x", "${a}", "\"", "'", "#", ":", "%w[", "\\]", "0x1", "-", "f.o", "日本"}
+
+// collLit: %w[ %s[ %x[ %b[ (and the ^ set / \ list forms) with valid and invalid elements, any
+// whitespace between them, closed, closed with a capacity, or not closed at all.
+func (g *gen) collLit() string {
+	kind := g.pick([]string{"w", "s", "i", "f", "x", "x", "x", "b", "b", "b"})
+	var b strings.Builder
+	b.WriteString(g.pick(collPrefixes) + kind + g.pick([]string{"[", "[", "[", "[", "(", "{", ""}))
+	sep := []string{" ", " ", " ", "  ", "\n", "\t", " \n ", "\r\n", ""}
+	if g.r.Chance(1, 3) {
+		b.WriteString(g.pick(sep))
+	}
+	for i := g.r.Range(0, 4); i > 0; i-- {
+		switch kind {
+		case "x":
+			b.WriteString(g.digits("0123456789abcdefABCDEF", 1, 4, g.r.Chance(1, 2)))
+		case "b":
+			b.WriteString(g.digits("01", 1, 4, g.r.Chance(1, 2)))
+		default:
+			b.WriteString(g.pick(wordElems))
+		}
+		if i > 1 || g.r.Chance(1, 3) {
+			b.WriteString(g.pick(sep))
+		}
+	}
+	b.WriteString(g.pick([]string{"]", "]", "]", "", "", "]:3", "]:", "] ", "]]", ")", "\n"}))
+	return b.String()
+}
+
+func (g *gen) escape() string {
+	return g.pick([]string{"\\n", "\\t", "\\\\", "\\\"", "\\x41", "\\x4", "\\xg1", "\\x", "\\u0041", "\\u00", "\\uzzzz", "\\u", "\\U0001F600", "\\U0001F6", "\\U", "\\u{1F600}", "\\u{", "\\q", "\\", "\\é", "\\\n", "\\$", "\\#", "\\'", "\\`", "\\0", "\\e", "\\a"})
+}
+
+func (g *gen) textBody(extra []string) string {
+	var b strings.Builder
+	for i := g.r.Range(0, 4); i > 0; i-- {
+		switch g.r.Below(6) {
+		case 0, 1:
+			b.WriteString(g.escape())
+		case 2:
+			b.WriteString(g.pick(extra))
+		default:
+			b.WriteString(g.pick([]string{"a", "bc", " ", "é", "日", "\n", "\xff", "1", "_", "#", "$", "{", "}"}))
+		}
+	}
+	return b.String()
+}
+
+func (g *gen) literal() string {
+	interp := []string{"${a}", "${", "${1 + }", "#{a}", "#{", "#a", "#@a", "#A", "$a", "${\"x\"}", "${%x[f g", "${%w[a}", "#{\\x[z]}"}
+	switch g.r.Below(16) {
+	case 0, 1, 2:
+		return g.numLit()
+	case 3, 4, 5, 6:
+		return g.collLit()
+	case 7:
+		return "\"" + g.textBody(interp) + g.pick([]string{"\"", "\"", ""})
+	case 8:
+		return "'" + g.textBody([]string{"\\'", "${a}"}) + g.pick([]string{"'", "'", ""})
+	case 9:
+		return g.pick([]string{"`", "r`", "R`"}) + g.textBody([]string{"\\`"}) + g.pick([]string{"`", "`", ""})
+	case 10:
+		return ":" + g.pick([]string{"foo", "Foo", "_a", "+", "[]=", "[]", "<=>", "1", "", ":", "\"" + g.textBody(interp) + g.pick([]string{"\"", ""}), "'a b" + g.pick([]string{"'", ""}), "foo=", "foo?", "!"})
+	case 11:
+		return g.pick([]string{"$", "@", "@@", ""}) + g.pick([]string{"\"", "'"}) + g.textBody(interp) + g.pick([]string{"\"", "'", ""})
+	case 12:
+		return "%/" + g.pick([]string{g.regexBody(), g.textBody(interp)}) + g.pick([]string{"/", "/", ""}) + g.pick([]string{"", "i", "imsxUa", "z", "i-m", "_"})
+	case 13:
+		return g.pick([]string{"[", "%[", "^[", "{", "%{", "^{", "("}) + g.numLit() + g.pick([]string{", ", " ", ",", ": ", " => "}) + g.literal() + g.pick([]string{"]", "}", ")", "", "]:2", ",]"})
+	case 14:
+		return g.numLit() + g.pick([]string{"...", "..<", "<..", "<.<", "..", "....", "."}) + g.pick([]string{g.numLit(), ""})
+	default:
+		return g.pick([]string{"#", "#[", "##[", "]#", "]##", "#[ #[", "# a\n", "##[ ${a}", "\\", "\\\n", "\\ \n", "%", "^", "\\x", "%x", "^b", "%w", "0x", "0b", ".", "..", ":", "::", "$", "@", "@@", "&.", "?.", "?..", "|>", "<<:", ">>>=", "===", "=:=", "=!=", "!==", "!~", "??=", "**=", "-@", "+@", "\x00", "\xEF\xBB\xBF", "\xe2\x80\xa8"})
+	}
+}
+
+// literalSnippet puts a literal into a short context.
+func (g *gen) literalSnippet() string {
+	lit := g.literal()
+	switch g.r.Below(8) {
+	case 0:
+		return "a := " + lit
+	case 1:
+		return "println(" + lit + ")"
+	case 2:
+		return "var x = " + lit + g.pick([]string{"\n", "\nb", "; 1", " "})
+	case 3:
+		return lit + " " + g.literal()
+	case 4:
+		return "foo(1, " + lit + g.pick([]string{")", "", ").bar"})
+	case 5:
+		return "switch a\ncase " + lit + " then 1\nend"
+	default:
+		return lit
+	}
+}
+
 func (g *gen) args(d int) string {
 	n := g.r.Range(0, 3)
 	var as []string
@@ -949,6 +1168,8 @@ func (g *gen) atom() string {
 		return "@" + g.pick(idents)
 	case 10:
 		return "$" + g.pick(idents)
+	case 11, 12:
+		return g.literal()
 	default:
 		return g.pick(idents)
 	}
@@ -1247,7 +1468,7 @@ func driverMain(o *hx.Opts) {
 	}
 	for _, l := range hx.ReadInputs(o.Input) {
 		if s, ok := decodeCorpusLine(l); ok {
-			add("c", s, "lpcr")
+			add("c", s, "lpcrd")
 		}
 	}
 	// The checker stage builds a fresh global environment per input (no state can leak from one
@@ -1261,9 +1482,9 @@ func driverMain(o *hx.Opts) {
 	}
 	stagesFor := func(k int) string {
 		if k%checkEvery == 0 {
-			return "lpcr"
+			return "lpcrd"
 		}
-		return "lpr"
+		return "lprd"
 	}
 	n := o.N
 	if o.Tier == "thorough" {
@@ -1302,6 +1523,55 @@ func driverMain(o *hx.Opts) {
 				add("r", g.raw(), stagesFor(k))
 			}
 		}
+	}
+	// p = EVERY-BYTE-POSITION prefix truncation (what the REPL lexes and parses after each keystroke,
+	// and what a file cut off anywhere looks like): for each base text b and each 0 < i <= len(b) the
+	// inputs b[:i] and b[:i]+"\n" (the cut element ends its source line: the diagnostic excerpt is
+	// re-lexed without the newline). Bases: (1) all input: strings of lexer/*_test.go, (2) input:/source:
+	// strings of parser/*_test.go (quick: a seeded sample), (3) snippets of the literal grammar (every
+	// literal kind, valid and invalid parts). Stages: lex, parse, render (no checker, no regex: 30 us each).
+	// Its own Rng, so the other generators' streams do not depend on it.
+	pr := hx.NewRng(o.Seed ^ 0x70726566697865)
+	pg := &gen{r: pr, valid: nil}
+	seenP := map[string]bool{}
+	np := 0
+	addPrefixes := func(b string) {
+		if len(b) > 400 {
+			b = b[:400]
+		}
+		for i := 1; i <= len(b); i++ {
+			for _, s := range []string{b[:i], b[:i] + "\n"} {
+				if !seenP[s] {
+					seenP[s] = true
+					add("p", s, "lpd")
+					np++
+				}
+			}
+		}
+	}
+	lexIn := harvestInputs(repo, "lexer/*_test.go")
+	parseIn := harvestInputs(repo, "parser/*_test.go")
+	nParse, nLit := len(parseIn), o.N*4
+	if o.Tier != "thorough" {
+		nParse, nLit = o.N/12, o.N/8
+	}
+	if strings.Contains(o.Extra, "noprefix") {
+		lexIn, nParse, nLit = nil, 0, 0
+	}
+	for _, b := range lexIn {
+		addPrefixes(b)
+	}
+	if nParse >= len(parseIn) {
+		for _, b := range parseIn {
+			addPrefixes(b)
+		}
+	} else {
+		for k := 0; k < nParse; k++ {
+			addPrefixes(parseIn[pr.Below(len(parseIn))])
+		}
+	}
+	for k := 0; k < nLit; k++ {
+		addPrefixes(pg.literalSnippet())
 	}
 	res := runAll(jobs)
 	for i, j := range jobs {
